@@ -179,6 +179,7 @@ theorem dispatchTask_eq (s : GoSched) (ctx : Ctx) (next_ : Def.Task) (isRetry : 
     Scheduler.dispatchTask s ctx next_ isRetry =
     (let (s, errCh, dispatchErr) := (GoSched.dispatch s ctx (fetcher next_ isRetry))
      if (!(Go.isNil dispatchErr)) then
+       let s := { s with getNextErr := dispatchErr }
        (s, (StateDispatchErr next_ dispatchErr))
      else
        let s := (GoSched.reserve s (fun (_ : Unit) =>
@@ -340,12 +341,14 @@ theorem drove_selTail {s : GoSched} (ctx : Ctx) (h : Regs s .s_select none false
   · simp only [selTail, GoSched.selectCase, hw, if_neg he, hctx]
     drove_fin
 
-/-- what the fetcher leaves behind: the automaton has finished, with `dispatchErr` iff the fetcher failed -/
+/-- what the fetcher leaves behind: the automaton has finished, with `dispatchErr` iff the fetcher failed — and then
+the automaton has already set its restart request (`finishDE`), which Go's `dispatchTask` sets after `Dispatch` has
+returned the error; Go's copy of `getNextErr` is still the one before the call -/
 def FetchPost (t : Gk.Task) (lt : Option Gk.Task) (g : Bool) (r : GoSched × Def.Task × GoError) : Prop :=
-  r.1.w.stuck = false ∧ r.1.w.pc = .idle ∧ r.1.w.lastTask = lt ∧ r.1.w.getNextErr = g ∧
+  r.1.w.stuck = false ∧ r.1.w.pc = .idle ∧ r.1.w.lastTask = lt ∧
     r.1.lastTask = lt.map toGenT ∧ r.1.getNextErr.isSome = g ∧
-    ((∃ e, r.2.2 = some (goErrS e) ∧ r.1.w.ret = .dispatchErr t e) ∨
-      (r.2.2 = none ∧ r.1.w.ret = .dispatched t.id))
+    ((∃ e, r.2.2 = some (goErrS e) ∧ r.1.w.ret = .dispatchErr t e ∧ r.1.w.getNextErr = true) ∨
+      (r.2.2 = none ∧ r.1.w.ret = .dispatched t.id ∧ r.1.w.getNextErr = g))
 
 theorem get_post {s : GoSched} {t : Gk.Task} {lt g} (ctx : Ctx) (id' : String) (h : Regs s (.d_get t) lt g) :
     FetchPost t lt g (GoSched.repoGetById s ctx id') := by
@@ -354,7 +357,7 @@ theorem get_post {s : GoSched} {t : Gk.Task} {lt g} (ctx : Ctx) (id' : String) (
   obtain ⟨w1, hw⟩ : ∃ w1, s.orc.env s.k s.w = w1 := ⟨_, rfl⟩
   simp only [hw] at hpc hns hfix hlt hg
   have hs : ∃ w' : World,
-      ((∃ e, w1.sched (.getById s.orc.fGet) = (w'.finish (.dispatchErr t e), .err (some e))) ∨
+      ((∃ e, w1.sched (.getById s.orc.fGet) = (w'.finishDE (.dispatchErr t e), .err (some e))) ∨
        (∃ cur, w1.sched (.getById s.orc.fGet) = (w'.finish (.dispatched t.id), .task cur))) ∧
       w'.stuck = false ∧ w'.lastTask = lt ∧ w'.getNextErr = g := by
     simp only [World.sched, hpc]
@@ -367,9 +370,9 @@ theorem get_post {s : GoSched} {t : Gk.Task} {lt g} (ctx : Ctx) (id' : String) (
         · exact ⟨_, .inr ⟨_, rfl⟩, hns, hlt, hg⟩
   obtain ⟨w', ⟨e, hs⟩ | ⟨cur, hs⟩, hns', hlt', hg'⟩ := hs
   · simp only [GoSched.repoGetById, GoSched.act, hw, hs]
-    exact ⟨hns', rfl, hlt', hg', hglt, hggne, .inl ⟨e, rfl, rfl⟩⟩
+    exact ⟨hns', rfl, hlt', hglt, hggne, .inl ⟨e, rfl, rfl, rfl⟩⟩
   · simp only [GoSched.repoGetById, GoSched.act, hw, hs]
-    exact ⟨hns', rfl, hlt', hg', hglt, hggne, .inr ⟨rfl, rfl⟩⟩
+    exact ⟨hns', rfl, hlt', hglt, hggne, .inr ⟨rfl, rfl, hg'⟩⟩
 
 theorem fetch_post_retry {s : GoSched} {t : Gk.Task} {lt g} (ctx : Ctx) (next_ : Def.Task)
     (h : Regs s (.d_get t) lt g) : FetchPost t lt g (fetcher next_ true ctx s) := by
@@ -386,7 +389,7 @@ theorem fetch_post {s : GoSched} {t : Gk.Task} {lt g} (ctx : Ctx) (next_ : Def.T
   obtain ⟨w1, hw⟩ : ∃ w1, s.orc.env s.k s.w = w1 := ⟨_, rfl⟩
   simp only [hw] at hpc hns hfix hlt hg
   have hs : ∃ w' : World,
-      ((∃ e, w1.sched (.markDispatched s.orc.fMark s.orc.hfMark) = (w'.finish (.dispatchErr t e), .err (some e))) ∨
+      ((∃ e, w1.sched (.markDispatched s.orc.fMark s.orc.hfMark) = (w'.finishDE (.dispatchErr t e), .err (some e))) ∨
        (w1.sched (.markDispatched s.orc.fMark s.orc.hfMark) = (w', .err none) ∧ w'.pc = .d_get t)) ∧
       w'.stuck = false ∧ w'.fix = {} ∧ w'.lastTask = lt ∧ w'.getNextErr = g := by
     simp only [World.sched, hpc]
@@ -399,7 +402,7 @@ theorem fetch_post {s : GoSched} {t : Gk.Task} {lt g} (ctx : Ctx) (next_ : Def.T
         · exact ⟨_, .inr ⟨rfl, rfl⟩, hns, hfix, hlt, hg⟩
   obtain ⟨w', ⟨e, hs⟩ | ⟨hs, hpc'⟩, hns', hfix', hlt', hg'⟩ := hs
   · simp only [fetcher, GoSched.repoMarkAsDispatched, GoSched.act, hw, hs]
-    exact ⟨hns', rfl, hlt', hg', hglt, hggne, .inl ⟨e, rfl, rfl⟩⟩
+    exact ⟨hns', rfl, hlt', hglt, hggne, .inl ⟨e, rfl, rfl, rfl⟩⟩
   · simp only [fetcher, GoSched.repoMarkAsDispatched, GoSched.act, hw, hs]
     have hp : FetchPost t lt g (GoSched.repoGetById ⟨w', s.lastTask, s.getNextErr, s.orc, s.k + 1, s.reserved⟩ ctx
         next_.Id) := get_post ctx _ ⟨henv, hpc', hns', hfix', hlt', hg', hglt, hggne⟩
@@ -408,12 +411,14 @@ theorem fetch_post {s : GoSched} {t : Gk.Task} {lt g} (ctx : Ctx) (next_ : Def.T
     cases err <;> simpa [FetchPost, GoSched.errOfResp, Go.isNil, Go.IsNil.isNil, Go.nil] using hp
 
 /-- what `dispatchTask` leaves behind: the automaton finished with `dispatchErr t e` / `dispatched t.id`, Go returns
-`StateDispatchErr next_ e` / `StateDispatched next_.Id` -/
+`StateDispatchErr next_ e` / `StateDispatched next_.Id`; after a failure BOTH have set the restart request (D21), after a
+success both have left it alone -/
 def DispPost (t : Gk.Task) (next_ : Def.Task) (lt : Option Gk.Task) (g : Bool) (r : GoSched × GoStepState) : Prop :=
-  r.1.w.stuck = false ∧ r.1.w.pc = .idle ∧ r.1.w.lastTask = lt ∧ r.1.w.getNextErr = g ∧
-    r.1.lastTask = lt.map toGenT ∧ r.1.getNextErr.isSome = g ∧
-    ((∃ e, r.2 = .dispatchErr next_ (some (goErrS e)) ∧ r.1.w.ret = .dispatchErr t e) ∨
-      (r.2 = .dispatched next_.Id ∧ r.1.w.ret = .dispatched t.id))
+  r.1.w.stuck = false ∧ r.1.w.pc = .idle ∧ r.1.w.lastTask = lt ∧ r.1.lastTask = lt.map toGenT ∧
+    ((∃ e, r.2 = .dispatchErr next_ (some (goErrS e)) ∧ r.1.w.ret = .dispatchErr t e ∧
+        r.1.w.getNextErr = true ∧ r.1.getNextErr.isSome = true) ∨
+      (r.2 = .dispatched next_.Id ∧ r.1.w.ret = .dispatched t.id ∧
+        r.1.w.getNextErr = g ∧ r.1.getNextErr.isSome = g))
 
 theorem dispatch_post {s : GoSched} {t : Gk.Task} {retry : Bool} {lt g} (ctx : Ctx) (next_ : Def.Task)
     (h : Regs s (.d_wait t retry) lt g) : DispPost t next_ lt g (Scheduler.dispatchTask s ctx next_ retry) := by
@@ -436,28 +441,28 @@ theorem dispatch_post {s : GoSched} {t : Gk.Task} {retry : Bool} {lt g} (ctx : C
     simp only [GoSched.dispatch, GoSched.act, hw, hs]
     generalize fetcher next_ retry ctx _ = r at hp ⊢
     rcases r with ⟨s3, task, err⟩
-    obtain ⟨h1, h2, h3, h4, h5, h6, ⟨e, h7, h8⟩ | ⟨h7, h8⟩⟩ := hp
+    obtain ⟨h1, h2, h3, h5, h6, ⟨e, h7, h8, h4⟩ | ⟨h7, h8, h4⟩⟩ := hp
     · simp only at h1 h2 h3 h4 h5 h6 h7 h8
       subst h7
-      refine ⟨?_, ?_, ?_, ?_, ?_, ?_, .inl ⟨e, ?_, ?_⟩⟩ <;>
+      refine ⟨?_, ?_, ?_, ?_, .inl ⟨e, ?_, ?_, ?_, ?_⟩⟩ <;>
         simp [Go.isNil, Go.IsNil.isNil, StateDispatchErr, *]
     · simp only at h1 h2 h3 h4 h5 h6 h7 h8
       subst h7
-      refine ⟨?_, ?_, ?_, ?_, ?_, ?_, .inr ⟨?_, ?_⟩⟩ <;>
+      refine ⟨?_, ?_, ?_, ?_, .inr ⟨?_, ?_, ?_, ?_⟩⟩ <;>
         simp [Go.isNil, Go.IsNil.isNil, StateDispatched, GoSched.reserve, *]
   · have hacq' : s.orc.acquired = false := by simpa using hacq
-    have hs : w1.sched (.waitWorker s.orc.acquired) = (w1.finish (.dispatchErr t .ctx), .err (some .ctx)) := by
+    have hs : w1.sched (.waitWorker s.orc.acquired) = (w1.finishDE (.dispatchErr t .ctx), .err (some .ctx)) := by
       simp [World.sched, hpc, hacq']
     simp only [GoSched.dispatch, GoSched.act, hw, hs]
-    refine ⟨?_, ?_, ?_, ?_, ?_, ?_, .inl ⟨.ctx, ?_, ?_⟩⟩ <;>
-      simp [Go.isNil, Go.IsNil.isNil, StateDispatchErr, GoSched.errOfResp, World.finish, *]
+    refine ⟨?_, ?_, ?_, ?_, .inl ⟨.ctx, ?_, ?_, ?_, ?_⟩⟩ <;>
+      simp [Go.isNil, Go.IsNil.isNil, StateDispatchErr, GoSched.errOfResp, World.finishDE, World.finish, *]
 
 theorem drove_dispatch {s : GoSched} {t : Gk.Task} (ctx : Ctx) (h : Regs s (.d_wait t false) none false) :
     Drove (Scheduler.dispatchTask s ctx (toGenT t) false) := by
   have hp := dispatch_post ctx (toGenT t) h
   generalize Scheduler.dispatchTask s ctx (toGenT t) false = r at hp ⊢
   rcases r with ⟨s', st⟩
-  obtain ⟨h1, h2, h3, h4, h5, h6, ⟨e, h7, h8⟩ | ⟨h7, h8⟩⟩ := hp
+  obtain ⟨h1, h2, h3, h5, ⟨e, h7, h8, h4, h6⟩ | ⟨h7, h8, h4, h6⟩⟩ := hp
   · simp only at h1 h2 h3 h4 h5 h6 h7 h8
     subst h7
     drove_fin
@@ -734,7 +739,7 @@ theorem droveR_done {s : GoSched} {id : String} {o : Outcome} {lt g} (ctx : Ctx)
 theorem droveR_dispTail {t : Gk.Task} {lt g} {r : GoSched × GoStepState} (hp : DispPost t (toGenT t) lt g r) :
     DroveRetry (r.1, r.2, (retryRet r.1 r.2 r.2.Err).2.2) := by
   rcases r with ⟨s', st⟩
-  obtain ⟨h1, h2, h3, h4, h5, h6, ⟨e, h7, h8⟩ | ⟨h7, h8⟩⟩ := hp
+  obtain ⟨h1, h2, h3, h5, ⟨e, h7, h8, h4, h6⟩ | ⟨h7, h8, h4, h6⟩⟩ := hp
   · simp only at h1 h2 h3 h4 h5 h6 h7 h8
     subst h7
     constructor <;> simp [retryRet, GoStepState.Err, SS.err, Go.isNil, Go.IsNil.isNil, normSt, ssGo, *]
@@ -781,7 +786,7 @@ theorem droveR_disp {s : GoSched} {t : Gk.Task} {lt g} (w0 : World) (ctx : Ctx)
       Bool.and_false, Bool.false_and, Bool.false_eq_true, if_false, if_true]
     generalize Scheduler.dispatchTask _ ctx default false = r at hp ⊢
     rcases r with ⟨s', st⟩
-    obtain ⟨h1, h2, h3, h4, h5, h6, ⟨e, h7, h8⟩ | ⟨h7, h8⟩⟩ := hp
+    obtain ⟨h1, h2, h3, h5, ⟨e, h7, h8, h4, h6⟩ | ⟨h7, h8, h4, h6⟩⟩ := hp
     · simp only at h1 h2 h3 h4 h5 h6 h7 h8
       subst h7
       refine ⟨?_, ?_, .inr ⟨hd, e, ?_, ?_⟩, ?_, ?_, ?_⟩ <;>
